@@ -206,6 +206,7 @@ type Version struct {
 	sys          System    // Packaging system in which version was expressed.
 	userNumCount int16     // Number of numbers provided by user.
 	isPrerelease bool      // The user provided a prerelease string.
+	synthetic    bool      // Built by MinVersion as a lower bound, not provided by the user.
 	str          string    // Original representation.
 	buf          [3]value  // Backing store for num; usually all that's needed. Avoids allocation.
 	num          []value   // Dot-separated numerical components.
@@ -1102,6 +1103,7 @@ func (sys System) MinVersion(v *Version) *Version {
 		// Although there is a prerelease, the user did not provide it so
 		// we do not want it to trigger prerelease matching in span.contains.
 		v.isPrerelease = false
+		v.synthetic = true
 		if sys == Go {
 			v.str = "v0.0.0-0"
 		} else {
